@@ -123,6 +123,12 @@ class VIter(V):
 
 
 @dataclass
+class VAttrs(V):
+    """an `attributes=` argument: None or (hopefully) a dict of name -> value"""
+    term: z3.ExprRef
+
+
+@dataclass
 class VRaise(V):
     exc: str
     info: str = ""
